@@ -56,6 +56,14 @@ def main():
     args = ap.parse_args()
     pid = args.pid.upper()
     seed = int(os.environ.get("VERIF_SEED", "0"))
+    replay_sig = None
+    if args.replay:
+        # checks are deterministic in (seed, tier): a replay re-runs the stored (seed, tier) and reports whether the
+        # stored violation signature shows up again; the stored concrete case is printed for the reader
+        rp = json.loads(Path(args.replay).read_text())
+        seed, args.tier, replay_sig = int(rp.get("seed", seed)), rp.get("tier", args.tier), rp.get("signature")
+        print(f"REPLAY {args.replay}: property={rp.get('property')} signature={replay_sig} seed={seed} tier={args.tier}")
+        print("  stored: " + str(rp.get("what"))[:500])
     ctx = core.Ctx(pid, args.tier, seed)
     try:
         mod = importlib.import_module(f"harness.checks.{pid.lower()}")
@@ -84,7 +92,13 @@ def main():
                 raise core.HarnessError("lake build failed")
         audit = None
         if level in ("proof", "other") and props_modules:
-            buildable = [m for m in props_modules if not any(m in b for b in broken)]
+            broken_mods = {b.split()[2] for b in broken if b.startswith("lean module ")}
+            bad = {m for m in props_modules if m in broken_mods or (m.replace(".", "/") + ".lean") in broken_mods}
+            # a module that imports a broken module does not build either
+            for m in props_modules:
+                if module_closure([m]) & {x.replace("/", ".").removesuffix(".lean") for x in broken_mods}:
+                    bad.add(m)
+            buildable = [m for m in props_modules if m not in bad]
             if thorough_clean := (args.tier == "thorough" and os.environ.get("VERIF_LEANCHECKER", "1") == "1"):
                 pass
             audit = core.lean_audit(buildable)
@@ -93,7 +107,16 @@ def main():
             for pr in audit["problems"]:
                 broken.append(pr) if pr not in broken else None
         # correspondence
-        mod.run(ctx)
+        try:
+            mod.run(ctx)
+        except ValueError as e:
+            # safety net: the implementation produced NaN/inf somewhere the check did not anticipate and the exact
+            # conversion refused it. On the unchanged tree this never happens; on a changed tree it is a finding, not a crash.
+            if "non-finite" in str(e) or "NaN" in str(e) or "cannot convert" in str(e):
+                ctx.violation("nonfinite:unanticipated", "the implementation returned non-finite numbers for an input on which the exact model is finite: " + str(e)[:200],
+                              {"traceback": traceback.format_exc()[-1500:], "last_samples": ctx.samples[-2:]})
+            else:
+                raise
     except core.HarnessError as e:
         print(f"HARNESS-ERROR {pid}: {e}")
         traceback.print_exc()
@@ -133,6 +156,10 @@ def main():
         )
         ctx.violations[-1]["nofail"] = True
 
+    if replay_sig is not None:
+        hit = [v for v in ctx.violations if v["sig"] == replay_sig]
+        print(f"REPLAY result: signature {'REPRODUCED' if hit else 'not reproduced'}")
+        return 1 if hit else 0
     known = core.load_known_findings()
     known_sigs = {(k["property"], k["signature"]): k for k in known.get("known", [])}
     rc = 0
